@@ -234,7 +234,25 @@ def trunc(v):
         return v
     if v.sort() == B:
         return z3.If(v, z3.IntVal(1), z3.IntVal(0))
-    return z3.If(v >= 0, z3.ToInt(v), -z3.ToInt(-v))
+    if z3.is_app_of(v, z3.Z3_OP_TO_REAL):
+        return v.arg(0)
+    # an uninterpreted symbol with two axioms (trunc_axioms): its characterisation by cases, and trunc(to_real(i)) == i.
+    # The second one lets e-matching conclude directly for integer-valued floats (index tables held in float arrays),
+    # where z3's to_int reasoning under quantifiers is incomplete.
+    return F_TRUNC(v)
+
+
+F_TRUNC = z3.Function("trunc", R, I)
+
+
+def trunc_axioms():
+    x = z3.Real("x!t")
+    i = z3.Int("i!t")
+    tr = z3.ToReal(F_TRUNC(x))
+    # truncation toward zero, characterised by linear arithmetic only (z3's to_int under quantifiers answers `unknown`)
+    return [z3.ForAll([x], z3.And(z3.Implies(x >= 0, z3.And(tr <= x, x < tr + 1)),
+                                  z3.Implies(x < 0, z3.And(tr - 1 < x, x <= tr))), patterns=[F_TRUNC(x)]),
+            z3.ForAll([i], F_TRUNC(z3.ToReal(i)) == i, patterns=[F_TRUNC(z3.ToReal(i))])]
 
 
 def floor_div_int(a, b):
@@ -599,13 +617,22 @@ class Engine:
             return z3.And(vals) if is_and else z3.Or(vals)
         # short-circuit: operand i is evaluated under the assumption that the previous ones did not decide
         sub = st.copy()
-        vals = []
+        vals, guards = [], []
         for e in node.values:
+            n0 = len(sub.pc)
             v = self.ev(e, sub)
+            # facts recorded while evaluating this operand (definitions of fresh slices / temporaries, callee
+            # postconditions, new heap objects) hold whenever the operand is evaluated at all: keep them under its guard
+            for fact in sub.pc[n0:]:
+                st.pc.append(z3.Implies(z3.And(guards), fact) if guards else fact)
+            for hid, obj in sub.heap.items():
+                if hid not in st.heap:
+                    st.heap[hid] = obj
             t = self.truth(v)
             vals.append(t)
-            sub.pc.append(toz(t) if is_and else z3.Not(toz(t)))
-        # facts learned while evaluating operands (call ensures) are conditional; drop them (sound)
+            g = toz(t) if is_and else z3.Not(toz(t))
+            guards.append(g)
+            sub.pc.append(g)
         vals = [toz(v) for v in vals]
         return z3.And(vals) if is_and else z3.Or(vals)
 
@@ -615,8 +642,17 @@ class Engine:
             return self.ev(node.body if c else node.orelse, st)
         s1 = st.copy(); s1.pc.append(c)
         s2 = st.copy(); s2.pc.append(z3.Not(c))
+        n1, n2 = len(s1.pc), len(s2.pc)
         a = self.ev(node.body, s1)
         b = self.ev(node.orelse, s2)
+        for fact in s1.pc[n1:]:
+            st.pc.append(z3.Implies(c, fact))
+        for fact in s2.pc[n2:]:
+            st.pc.append(z3.Implies(z3.Not(c), fact))
+        for sx in (s1, s2):
+            for hid, obj in sx.heap.items():
+                if hid not in st.heap:
+                    st.heap[hid] = obj
         return self.ite(c, a, b)
 
     def ite(self, c, a, b):
@@ -974,7 +1010,21 @@ class Engine:
                 src_idx.append(sp[1])
         data = self.fresh("slice", arr_sort(arr.elem, len(out_shape)))
         out = Arr(data, out_shape, arr.elem)
-        st.pc.append(z3.ForAll(bvs, self.select(out, bvs) == self.select(arr, src_idx)))
+        osel = self.select(out, bvs)
+        st.pc.append(forall_pat(bvs, osel == self.select(arr, src_idx), [osel]))
+        # the same fact indexed by the SOURCE position (trigger: the source element), for reasoning from the source side
+        cvs, src2, out2, rng = [], [], [], []
+        for sp in specs:
+            if sp[0] == "s":
+                c = self.fresh("c", I)
+                cvs.append(c)
+                src2.append(c)
+                out2.append(c - sp[1])
+                rng.append(z3.And(c >= sp[1], c < sp[2]))
+            else:
+                src2.append(sp[1])
+        ssel = self.select(arr, src2)
+        st.pc.append(forall_pat(cvs, z3.Implies(z3.And(rng), ssel == self.select(out, out2)), [ssel]))
         return out
 
     def ev_Call(self, node, st):
@@ -1254,6 +1304,15 @@ class Engine:
             return self.ev(ast.parse(expr, mode="eval").body, sub)
         finally:
             self.spec_mode -= 1
+
+
+def forall_pat(vs, body, patterns):
+    """ForAll with explicit triggers; falls back to z3's own trigger inference when a trigger is not admissible
+    (e.g. it contains an if-then-else or misses a variable)"""
+    try:
+        return z3.ForAll(vs, body, patterns=patterns)
+    except z3.Z3Exception:
+        return z3.ForAll(vs, body)
 
 
 def _free_scalars(term, exclude):
